@@ -59,3 +59,26 @@ U('find', r'(?<!const_)iterator find\(const key_type& __x\)', 'bool FlatMap_find
   '__CPROVER_requires(__CPROVER_is_fresh(self, sizeof(*self)) && FM_OK(self))\n__CPROVER_ensures((__CPROVER_return_value != 0) == (g_present != 0))\n__CPROVER_assigns()',
   'find(k) != end() <=> k is present (lower_bound on a sorted range with one entry per key)',
   extra=[rx(r'auto i = lower_bound\(__x\);', 'bool hit = std_lower_bound_hits(self);', 1, 1), rx(r'if \(i != end\(\) && key_eq\(i->first, __x\)\)\s*return i;', 'if (hit) return 1;', 1, 1), rx(r'return end\(\);', 'return 0;', 1, 1)])
+
+# operator[], at, erase(key): lookups go through lower_bound (sorted range needed); operator[] inserts AT the lower bound, which keeps the order
+P2 = P + ["""
+bool g_thrown;
+static inline void gv_out_of_range(void) { g_thrown = 1; }
+/* _data.emplace(lower_bound position, ...): inserting a key that is absent at its lower-bound position keeps the vector sorted with one entry per key */
+static inline void data_emplace_at_lb(struct FlatMapS* m) { __CPROVER_assert(m->sorted && m->uniq && g_present == 0, "vector::emplace at the lower bound of an absent key"); m->n++; }
+static inline void data_erase_found(struct FlatMapS* m) { __CPROVER_assert(m->n >= 1 && g_present != 0, "vector::erase of the found entry"); m->n--; }
+"""]
+LBHIT = [rx(r'(const_)?iterator __i = lower_bound\(__k\);', 'bool hit = std_lower_bound_hits(self);', 1, 1), rx(r'__i == end\(\) \|\| key_comp\(\)\(__k, \(\*__i\)\.first\)', '!hit', 1, 1)]
+UNITS.append(Unit(name='FlatMap_index', src=FM, within=W, anchor=r'mapped_type& operator\[\]\(const key_type& __k\)', proto='void FlatMap_index(struct FlatMapS* self)',
+                  contract='__CPROVER_requires(__CPROVER_is_fresh(self, sizeof(*self)) && FM_OK(self) && self->n < ((size_t)1 << 40))\n__CPROVER_ensures(FM_OK(self) && self->n == __CPROVER_old(self->n) + (g_present ? 0 : 1))\n__CPROVER_assigns(__CPROVER_object_whole(self))',
+                  prelude=P2, lower=LBHIT + [rx(r'__i = _data\.emplace\(__i, std::piecewise_construct,\s*std::forward_as_tuple\(__k\), std::tuple<>\(\)\);', 'data_emplace_at_lb(self);', 1, 1, flags=re.S), rx(r'return \(\*__i\)\.second;', 'return;', 1, 1)],
+                  no_flags=['--conversion-check'], inst='flat_map<int, int> (abstract)', says='operator[](k): a missing key is inserted at its lower-bound position (order and uniqueness kept), an existing one is found; size grows by one exactly when the key was absent'))
+UNITS.append(Unit(name='FlatMap_at', src=FM, within=W, anchor=r'(?<!const )mapped_type& at\(const key_type& __k\)', proto='void FlatMap_at(struct FlatMapS* self)',
+                  contract='__CPROVER_requires(__CPROVER_is_fresh(self, sizeof(*self)) && FM_OK(self) && !g_thrown)\n__CPROVER_ensures((g_thrown != 0) == (g_present == 0))\n__CPROVER_assigns(g_thrown)',
+                  prelude=P2, lower=LBHIT + [rx(r'throw std::out_of_range\("flat_map::at"\);', '{ gv_out_of_range(); return; }', 1, 1), rx(r'return \(\*__i\)\.second;', 'return;', 1, 1)],
+                  no_flags=['--conversion-check'], inst='flat_map<int, int> (abstract)', says='at(k): std::out_of_range exactly when the key is absent'))
+UNITS.append(Unit(name='FlatMap_erase_key', src=FM, within=W, anchor=r'size_type erase\(const key_type& __x\)', proto='size_t FlatMap_erase_key(struct FlatMapS* self)',
+                  contract='__CPROVER_requires(__CPROVER_is_fresh(self, sizeof(*self)) && FM_OK(self) && (g_present != 0 ==> self->n >= 1))\n__CPROVER_ensures(FM_OK(self) && __CPROVER_return_value == (g_present ? 1u : 0u) && self->n == __CPROVER_old(self->n) - (g_present ? 1 : 0))\n__CPROVER_assigns(__CPROVER_object_whole(self))',
+                  prelude=P2, lower=[rx(r'auto i = find\(__x\);', 'bool found = FlatMap_find_inl(self);', 1, 1), rx(r'i != end\(\)', 'found', 1, 1), rx(r'_data\.erase\(i\);', 'data_erase_found(self);', 1, 1)],
+                  post_pre='static inline bool FlatMap_find_inl(struct FlatMapS* self) { return std_lower_bound_hits(self); }   /* = the proved contract of find(): found <=> present */\n',
+                  no_flags=['--conversion-check'], inst='flat_map<int, int> (abstract)', says='erase(k): removes the entry of k if there is one (returns 1) and nothing otherwise (returns 0); order and uniqueness kept'))
